@@ -103,3 +103,32 @@ def gen_conc_role(seed, idx):
         steps.append({"op": "status", "status": 1})
     steps.append({"op": "drain", "n": 12})
     return {"name": f"conc-role-{seed}-{idx}", "cfg": p.get("cfg", {}), "steps": steps, "complete": True}
+
+
+def gen_conc_free(seed, idx):
+    """Really concurrent bursts (no gates): first requests for databases that do not exist yet, and for keys that do
+    not exist yet, from several connections at once.  Every burst holds no-wait locks with distinct LockIds on ONE
+    exclusive (or Count-limited) key, so the verdict (at most Count+1 SUCCED) does not depend on the reply order."""
+    rng = random.Random(seed * 69069 % (2**31) + idx * 17 + 3)
+    steps = []
+    dbs = rng.sample(range(1, 250), rng.randint(3, 8))
+    lid = 1
+    for db in dbs:
+        cnt = rng.choice([0, 0, 0, 1, 2])
+        key = rng.randint(1, 3)
+        ops = []
+        for _ in range(rng.randint(3, 8)):
+            ops.append({"op": "lock", "conn": rng.randint(1, 6), "db": db, "key": key, "lid": lid, "flag": 0, "tf": 0, "ef": 0,
+                        "to": 0, "ex": 60, "cnt": cnt, "rc": 0})
+            lid += 1
+        steps.append({"op": "par", "free": True, "ops": ops})
+        if rng.random() < 0.5:
+            # a second burst on the (now existing) database, fresh key
+            ops = []
+            for _ in range(rng.randint(3, 6)):
+                ops.append({"op": "lock", "conn": rng.randint(1, 6), "db": db, "key": key + 10, "lid": lid, "flag": 0, "tf": 0, "ef": 0,
+                            "to": 0, "ex": 60, "cnt": cnt, "rc": 0})
+                lid += 1
+            steps.append({"op": "par", "free": True, "ops": ops})
+    steps.append({"op": "drain", "n": 12})
+    return {"name": f"conc-free-{seed}-{idx}", "cfg": {}, "steps": steps, "complete": True}
